@@ -1286,7 +1286,7 @@ func SelectExpr(query *Query, current Map, expr *sqlparser.SelectExprs, opts ...
 
 func SubqueryExpr(query *Query, current Map, expr *sqlparser.Subquery, opts ...ExprOption) (any, error) {
 	// Backward Navigation
-	current["<-"] = query.data
+	defer backwardNavigation(query, current)()
 	query.postProcessors = append(query.postProcessors, func() error {
 		delete(current, "<-")
 		return nil
@@ -1306,6 +1306,21 @@ func SubqueryExpr(query *Query, current Map, expr *sqlparser.Subquery, opts ...E
 		query.wg.Done()
 	}()
 	return rs, nil
+}
+
+// backwardNavigation puts the `<-` back-reference into the current row for the time a
+// subquery is evaluated against it and returns the function that takes it out again -
+// on every path, so that a failing subquery does not leave it in the caller's rows.
+func backwardNavigation(query *Query, current Map) func() {
+	previous, nested := current["<-"]
+	current["<-"] = query.data
+	return func() {
+		if nested {
+			current["<-"] = previous
+			return
+		}
+		delete(current, "<-")
+	}
 }
 
 func CaseExpr(query *Query, current Map, expr *sqlparser.CaseExpr, opts ...ExprOption) (any, error) {
@@ -1333,7 +1348,7 @@ func CaseExpr(query *Query, current Map, expr *sqlparser.CaseExpr, opts ...ExprO
 // it finds the first value
 func ExistExpr(query *Query, current Map, expr *sqlparser.ExistsExpr, opts ...ExprOption) (bool, error) {
 	// Backward Navigation
-	current["<-"] = query.data
+	defer backwardNavigation(query, current)()
 	query.postProcessors = append(query.postProcessors, func() error {
 		delete(current, "<-")
 		return nil
